@@ -301,7 +301,12 @@ class Endpoint(object):
             ver = 0xffff
             name = (m.version_string.encode() + b"\0" +
                     m.version.encode() + b"\0")
-        return _reply(req, RC_OK, (arg1, (ver << 16) | m.buffer_size,
+        # application cores (SARK) may advertise another buffer size than
+        # the monitor (SC&MP), whose value governs every command
+        buf = m.buffer_size
+        if p != 0 and getattr(m, "app_buffer_size", None):
+            buf = m.app_buffer_size
+        return _reply(req, RC_OK, (arg1, (ver << 16) | buf,
                                    m.build_date), name)
 
     # ---------------------------------------------------------- read/write
